@@ -294,7 +294,10 @@ func (s *Spec) Step(ctx context.Context, st *State, pending interface{}, c *Cont
 		if err == nil {
 			bs = e.Bs
 		} else {
-			// Bind "actionError" to the error string.
+			// Bind "actionError" to the error string (in
+			// a copy: the given state's bindings belong
+			// to the caller and might be nil).
+			bs = bs.Copy()
 			bs.Extend("actionError", err.Error())
 			bs.Extend("error", err.Error())
 			if !s.ActionErrorBranches {
@@ -668,7 +671,7 @@ func (s *Spec) Walk(ctx context.Context, st *State, pendings []interface{}, c *C
 			if st.NodeName == "error" {
 				// We're already at an error.
 			} else {
-				errorBs, _ := st.Bs.Extendm("error", err.Error(),
+				errorBs, _ := st.Bs.Copy().Extendm("error", err.Error(),
 					"lastNode", st.NodeName,
 					"lastBindings", st.Bs.Copy())
 				stride.To = &State{
